@@ -626,6 +626,11 @@ def run(ctx):
     ctx.rule("C12-g", "the designated hypercube coordinate is the caller's: the x-space entry hands its point to the sampling routine unmodified")
     common.entry_forwards_inputs(ctx, ctx.roles, "C12-g")
     wrapper_forwards(ctx, ctx.roles, "C12-g")
+    # "the coordinate" in the statement is the one the reader hands out: the k-th read returns element k of the caller's slice and
+    # advances by one (restated from C14-a / C14-b — a reader that skips, repeats or offsets breaks this property from mimic_rng.rs)
+    from .restate import run_restated
+    run_restated(ctx, [("C14", {"C14-a": "the caller's slice reaches only the reader; its fields are touched only by its own methods",
+                                "C14-b": "the k-th read returns cache[k] and advances the counter by exactly one"})])
     if ctx.cfg == "default":
         from ..fixtures import detectors_alive
         ctx.rule("C12-z", "positive example: the panic scan finds the planted bounds check, unwrap and explicit panic in fixtures/")
